@@ -71,6 +71,7 @@ fn main() {
         "C14" => rig::props::c14::main(tier, replay),
         "C19" => rig::props::c19::main(tier, replay),
         "C08" => rig::props::c08::main(tier, replay),
+        "C15" => rig::props::c15::main(tier, replay),
         "C16" => rig::props::c16::main(tier, replay),
         "C17" => rig::props::c17::main(tier, replay),
         "selftest" => rig::props::c03::selftest(),
